@@ -187,8 +187,12 @@ def gen_history(rng, cfg, n, p_action=0.3, avoid_exit=True, repeats=True, max_do
         if avoid_exit and exitset and exitset <= (set(down) | {code}):
             continue
         if action_discipline and code in action_codes:
+            # C04's quantifier: at most one complete pair held, no further action pressed WHILE a pair is complete. Another action held
+            # BEFORE the pair completes is inside the quantifier (X held, U pressed, D pressed: the pair U/D must still reset).
             held_actions = [action_codes[c] for c in down if c in action_codes]
-            if len(held_actions) >= 2:
+            pair_complete = any(PARTNER.get(x) in held_actions for x in held_actions)
+            completes = PARTNER.get(action_codes[code]) in held_actions
+            if pair_complete or (len(held_actions) >= 2 and not completes) or len(held_actions) >= 3:
                 continue
         down[code] = sub
         h.append({"t": "k", "sub": sub, "code": code, "val": 1})
